@@ -27,9 +27,9 @@
                                         condition that cannot be evaluated; "userset / wildcard request with
                                         exclusion" error), the other allowed / denied: the uncached engine itself
                                         returns either, depending on which branch reports first;
-           lo_cache_key_without_ctx     engine 4 (ListObjects with enable-list-objects-optimizations): the list
-                                        differs and an earlier optimised ListObjects of the same user ran in another
-                                        world (C04 finding: candidate checks are cached with invariant key 0);
+           (engine 4, ListObjects with enable-list-objects-optimizations: its candidate checks used to be cached
+            with invariant key 0 -- C04/C08 lo_cache_key_without_ctx, fixed by 927fd35; a difference there is
+            a PROP like any other)
            cancelled_reducer_result_cached   default engine, ONE cached run of the history only: wrong cache
                                         entries, all of them sub-problems below a request root, and the answers
                                         that follow from them (a cancelled sub-problem stored with an invented result);
@@ -307,12 +307,7 @@ let f _id vs =
                   let wh = Printf.sprintf "engine %d step %d ListObjects w%d t%d#r%d@%s" eng si it.w it.ot (int_of_n it.rel) (subj_s (List.nth subjs it.s)) in
                   if u0 <> cc then begin
                     let txt = Printf.sprintf "%s: uncached=%s cached(run %d)=%s" wh (cls_s u0) run (cls_s cc) in
-                    let other_world = ref false in
-                    List.iteri (fun sj st -> match st with
-                      | SList it' when sj < si && it'.s = it.s && it'.w <> it.w -> other_world := true
-                      | _ -> ()) steps;
                     if (eng = 0 || eng = 2) && u0 = 4 && cc = 0 then known ("depth_error_masked_by_cache " ^ txt)
-                    else if eng = 4 && !other_world then known ("lo_cache_key_without_ctx " ^ txt)
                     else prop txt
                   end else if u0 = 0 && uo <> cobjs then begin
                     let sym = List.filter (fun x -> not (List.mem x cobjs)) uo @ List.filter (fun x -> not (List.mem x uo)) cobjs in
@@ -323,15 +318,6 @@ let f _id vs =
                           (if inu then "listed without the cache, missing with it (run " ^ string_of_int run ^ ")"
                            else "listed only with the cache (run " ^ string_of_int run ^ ")") in
                       if eng = 1 || eng = 3 then (if hazard p si a then known ("v2_edge_cache_visited " ^ txt) else prop txt)
-                      else if eng = 4 then begin
-                        (* optimised ListObjects: its candidate checks are cached without the invariant part of the
-                           key, so an earlier optimised ListObjects of the same user in ANOTHER world can answer *)
-                        let other_world = ref false in
-                        List.iteri (fun sj st -> match st with
-                          | SList it' when sj < si && it'.s = it.s && it'.w <> it.w -> other_world := true
-                          | _ -> ()) steps;
-                        if !other_world then known ("lo_cache_key_without_ctx " ^ txt) else prop txt
-                      end
                       else if excused_run run then known ("cancelled_reducer_result_cached " ^ txt)
                       else begin
                         let (_, tr1) = v1 p a in
